@@ -4,8 +4,13 @@ package c06
 import (
 	"encoding/json"
 	"fmt"
+	"hash/fnv"
+	"html"
+	"math"
 	"reflect"
+	"regexp"
 	"strings"
+	"sync"
 	"testing"
 
 	"verif/internal/model"
@@ -42,6 +47,101 @@ type leafDef struct {
 var data = map[string]interface{}{
 	"n3": -3, "n1": -1, "nf": -2.5, "big": 9007199254740993, "vs": "v<s>", "vt": true, "vz": 0,
 	"fbig": 2.5e9, "ftiny": 0.00001, // floats whose printed form uses an exponent
+	"feps": 1e-10, "vf": false, "maxi": math.MaxInt64, "mini": math.MinInt64, "negz": math.Copysign(0, -1),
+	"i5": 5, "i2": 2, "in4": -4, "i0": 0, // the reference sees integers; plush receives them as int64 (plushOverride)
+	"xs": []interface{}{"e0", "e1", "e2", "e3"},
+	// operands reached through an index, a key, a field, a field of an element: the reference knows a field path as a
+	// plain name ("st.N"), plush receives the struct (plushExtra)
+	"pa": []interface{}{7, 2, 1.5, "a", true, false, 0.5, "b2"},
+	"mp": &model.OrderedMap{Keys: []interface{}{"k", "s", "b"}, Vals: map[interface{}]interface{}{"k": 7, "s": "a", "b": false}},
+	"st.N": 7, "st.M": 2, "st.F": 1.5, "st.S": "a", "st.B": true, "st.In.N": 1, "ps[1].N": 2, "ps[0].S": "b2", "ps[0].B": false,
+}
+
+type inner struct{ N int }
+type rec struct {
+	N, M int
+	F    float64
+	S    string
+	B    bool
+	In   inner
+}
+
+// plushExtra: Go values only plush sees; leafNeeds names the one a leaf reads
+var plushExtra = map[string]interface{}{
+	"st": rec{N: 7, M: 2, F: 1.5, S: "a", B: true, In: inner{N: 1}},
+	"ps": []rec{{N: 9, S: "b2", B: false}, {N: 2, S: "x", B: true}},
+}
+
+// decoys: template variables named like the fields and keys; they must not be mistaken for them
+var decoys = map[string]interface{}{"N": 1000, "M": 2000, "F": 9.5, "S": "zz", "B": false, "In": 5, "k": "s", "s": "k"}
+
+var leafNeeds = map[string]string{"st.N": "st", "st.M": "st", "st.F": "st", "st.S": "st", "st.B": "st", "st.In.N": "st", "ps[1].N": "ps", "ps[0].S": "ps", "ps[0].B": "ps"}
+
+// constant helpers: operands that are calls
+var constHelpers = map[string]interface{}{"h7": 7, "h2": 2, "hf": 1.5, "hs": "a", "hb": true, "hn": false}
+
+func addConstHelpers(m map[string]model.Helper) map[string]model.Helper {
+	for name, v := range constHelpers {
+		v := v
+		m[name] = func([]interface{}) (interface{}, error) { return v, nil }
+	}
+	return m
+}
+
+// plushOverride: Go values handed to plush in place of the reference's value of the same name. The int64 family are
+// integer operands like any other; the reference computes with integers and sameVal compares int64 and int by value.
+var plushOverride = map[string]interface{}{"i5": int64(5), "i2": int64(2), "in4": int64(-4), "i0": int64(0)}
+
+func plushData(d map[string]interface{}) map[string]interface{} {
+	m := make(map[string]interface{}, len(d))
+	for k, v := range d {
+		if _, path := leafNeeds[k]; path {
+			continue
+		}
+		if o, ok := plushOverride[k]; ok {
+			v = o
+		}
+		m[k] = v
+	}
+	for k, v := range plushExtra {
+		m[k] = v
+	}
+	for k, v := range decoys {
+		m[k] = v
+	}
+	return m
+}
+
+// dataFor: the variables an expression names, as plush receives them (model.Context copies the map for every render)
+func dataFor(e *E, m map[string]interface{}) map[string]interface{} {
+	switch {
+	case e.Leaf != "":
+		switch v := leaves[e.Leaf].(type) {
+		case model.Var:
+			if need, ok := leafNeeds[e.Leaf]; ok {
+				m[need] = plushExtra[need]
+				for k, v := range decoys {
+					m[k] = v
+				}
+			} else if val, ok := data[v.Name]; ok {
+				if o, ok := plushOverride[v.Name]; ok {
+					val = o
+				}
+				m[v.Name] = val
+			}
+		case model.Idx:
+			name := v.X.(model.Var).Name
+			m[name] = data[name]
+		}
+	case e.Not != nil:
+		dataFor(e.Not, m)
+	case e.Paren != nil:
+		dataFor(e.Paren, m)
+	default:
+		dataFor(e.L, m)
+		dataFor(e.R, m)
+	}
+	return m
 }
 
 var leaves = map[string]model.Expr{
@@ -52,13 +152,57 @@ var leaves = map[string]model.Expr{
 	`"a"`: model.Lit{V: "a"}, `"b2"`: model.Lit{V: "b2"}, `""`: model.Lit{V: ""}, `"^a"`: model.Lit{V: "^a"}, `"("`: model.Lit{V: "("}, "vs": model.Var{Name: "vs"},
 	"true": model.Lit{V: true}, "false": model.Lit{V: false}, "vt": model.Var{Name: "vt"},
 	"nil": model.Lit{V: nil}, "unk": model.Var{Name: "unk"},
+	// boundaries: a two-digit literal, literals beyond 2^31 and 2^53, the largest literal, the extreme variables
+	"10": model.Lit{V: 10}, "2147483648": model.Lit{V: 2147483648}, "9007199254740993": model.Lit{V: 9007199254740993},
+	"9223372036854775807": model.Lit{V: math.MaxInt64}, "maxi": model.Var{Name: "maxi"}, "mini": model.Var{Name: "mini"},
+	// floats that are not exactly representable (0.1 + 0.2 != 0.3), a literal printed with an exponent, minus zero
+	"0.1": model.Lit{V: 0.1}, "0.2": model.Lit{V: 0.2}, "0.3": model.Lit{V: 0.3}, "0.5": model.Lit{V: 0.5},
+	"123456789.0": model.Lit{V: 123456789.0}, "negz": model.Var{Name: "negz"}, "feps": model.Var{Name: "feps"},
+	// strings that look like other operands or like operators, upper case
+	`"A"`: model.Lit{V: "A"}, `"2"`: model.Lit{V: "2"}, `"1.5"`: model.Lit{V: "1.5"}, `"true"`: model.Lit{V: "true"},
+	`"a && b"`: model.Lit{V: "a && b"}, `"é"`: model.Lit{V: "é"}, `"10"`: model.Lit{V: "10"}, `"q\"q"`: model.Lit{V: `q"q`},
+	"vf": model.Var{Name: "vf"},
+	// int64 family (own phases only: mixing int64 with int is not fixed by the statement)
+	"i5": model.Var{Name: "i5"}, "i2": model.Var{Name: "i2"}, "in4": model.Var{Name: "in4"}, "i0": model.Var{Name: "i0"},
 }
 
+var i64Leaves = []string{"i5", "i2", "in4", "i0"}
+
+// pathLeaves: operands that are not a literal or a plain name (own phases)
+var pathLeaves = []string{"pa[0]", "pa[1]", "pa[2]", "pa[3]", "pa[4]", "pa[5]", `mp["k"]`, `mp["s"]`, `mp["b"]`, "st.N", "st.M", "st.F", "st.S", "st.B", "st.In.N",
+	"ps[1].N", "ps[0].S", "ps[0].B", "h7()", "h2()", "hf()", "hs()", "hb()", "hn()"}
+
+func init() {
+	for i := 0; i < 8; i++ {
+		leaves[fmt.Sprintf("pa[%d]", i)] = model.Idx{X: model.Var{Name: "pa"}, I: model.Lit{V: i}}
+	}
+	for _, k := range []string{"k", "s", "b"} {
+		leaves[fmt.Sprintf("mp[%q]", k)] = model.Idx{X: model.Var{Name: "mp"}, I: model.Lit{V: k}}
+	}
+	for name := range leafNeeds {
+		leaves[name] = model.Var{Name: name}
+	}
+	for name := range constHelpers {
+		leaves[name+"()"] = model.Call{Fn: name}
+	}
+}
+
+func isPath(name string) bool {
+	for _, l := range pathLeaves {
+		if l == name {
+			return true
+		}
+	}
+	return strings.HasPrefix(name, "pa[")
+}
+
+func isI64(name string) bool { return name == "i5" || name == "i2" || name == "in4" || name == "i0" }
+
 var (
-	intLeaves    = []string{"0", "1", "2", "7", "n3", "n1", "vz", "big"}
-	floatLeaves  = []string{"1.5", "0.0", "2.0", "nf", "1000000.0", "fbig", "ftiny"}
-	stringLeaves = []string{`"a"`, `"b2"`, `""`, `"^a"`, "vs", `"("`}
-	boolLeaves   = []string{"true", "false", "vt"}
+	intLeaves    = []string{"0", "1", "2", "7", "n3", "n1", "vz", "big", "10", "2147483648", "maxi"}
+	floatLeaves  = []string{"1.5", "0.0", "2.0", "nf", "1000000.0", "fbig", "ftiny", "0.1", "0.2", "0.3", "negz", "feps"}
+	stringLeaves = []string{`"a"`, `"b2"`, `""`, `"^a"`, "vs", `"("`, `"A"`, `"2"`, `"true"`, `"10"`}
+	boolLeaves   = []string{"true", "false", "vt", "vf"}
 	allLeaves    = []string{"0", "2", "7", "n3", "1.5", "0.0", "fbig", `"a"`, `"b2"`, "true", "false", "nil", "unk"}
 	quickLeaves  = []string{"2", "n3", "1.5", `"a"`, "true", "nil", "unk"}
 	binOps       = []string{"+", "-", "*", "/", "<", "<=", ">", ">=", "==", "!=", "~=", "&&", "||"}
@@ -143,13 +287,39 @@ type outcome struct {
 	trace []int
 }
 
-func runModel(x model.Expr) (outcome, string) {
+// modelDataFor: the variables an expression names, as the reference sees them
+func modelDataFor(e *E, m map[string]interface{}) map[string]interface{} {
+	switch {
+	case e.Leaf != "":
+		switch v := leaves[e.Leaf].(type) {
+		case model.Var:
+			if val, ok := data[v.Name]; ok {
+				m[v.Name] = val
+			}
+		case model.Idx:
+			name := v.X.(model.Var).Name
+			m[name] = data[name]
+		}
+	case e.Not != nil:
+		modelDataFor(e.Not, m)
+	case e.Paren != nil:
+		modelDataFor(e.Paren, m)
+	default:
+		modelDataFor(e.L, m)
+		modelDataFor(e.R, m)
+	}
+	return m
+}
+
+func runModel(x model.Expr) (outcome, string) { return runModelWith(x, data) }
+
+func runModelWith(x model.Expr, data map[string]interface{}) (outcome, string) {
 	var o outcome
 	helpers := map[string]model.Helper{
 		"t":   func(a []interface{}) (interface{}, error) { o.trace = append(o.trace, a[0].(int)); return a[1], nil },
 		"cap": func(a []interface{}) (interface{}, error) { o.val = a[0]; return nil, nil },
 	}
-	res := model.Run([]model.Node{model.Code{S: model.ExprS{X: model.Call{Fn: "cap", Args: []model.Expr{x}}}}}, data, helpers)
+	res := model.Run([]model.Node{model.Code{S: model.ExprS{X: model.Call{Fn: "cap", Args: []model.Expr{x}}}}}, data, addConstHelpers(helpers))
 	if res.Unspec != "" {
 		return o, res.Unspec
 	}
@@ -157,13 +327,16 @@ func runModel(x model.Expr) (outcome, string) {
 	return o, ""
 }
 
-func runPlush(src string) (outcome, vk.Res) {
+func runPlush(src string, d map[string]interface{}, withConst bool) (outcome, vk.Res) {
 	var o outcome
 	helpers := map[string]model.Helper{
 		"t":   func(a []interface{}) (interface{}, error) { o.trace = append(o.trace, a[0].(int)); return a[1], nil },
 		"cap": func(a []interface{}) (interface{}, error) { o.val = a[0]; return nil, nil },
 	}
-	res := vk.Safe(func() (string, error) { return plush.Render(src, model.Context(data, helpers)) })
+	if withConst {
+		addConstHelpers(helpers)
+	}
+	res := vk.Safe(func() (string, error) { return plush.Render(src, model.Context(d, helpers)) })
 	o.isErr = res.Err != nil
 	return o, res
 }
@@ -178,21 +351,162 @@ func sameVal(a, b interface{}) bool {
 	return reflect.DeepEqual(a, b)
 }
 
-func checkExpr(r *vk.Run, c Case, class string) *vk.Fail {
+// ---- spellings --------------------------------------------------------------------
+
+// style is one way of writing an expression down. The reference printer writes single blanks and either the minimal or
+// the full set of parentheses; the styles below are other legal spellings of the same tree: the tree is fixed by the
+// parentheses the stated precedence order demands, blanks and line ends between tokens mean nothing.
+type style struct {
+	Name   string
+	Before string // put before / after every binary operator
+	After  string
+	Pad    bool // blanks inside parentheses and after !
+	LeafP  bool // every leaf in parentheses of its own
+	BQuote bool // string literals between back quotes
+	Zero   bool // float literals with one more trailing zero
+}
+
+var styles = []style{
+	{Name: "glued"},
+	{Name: "glued-right", Before: " "},          // 7 -2
+	{Name: "glued-left", After: " ", Zero: true}, // 7- 2
+	{Name: "wide", Before: "  ", After: "\t", Pad: true},
+	{Name: "lines", Before: "\n", After: "\n", BQuote: true},
+	{Name: "leafparens", Before: " ", After: " ", LeafP: true},
+}
+
+// lvl is the binding strength the statement gives: ! > * / > + - > < <= > >= > == != ~= > && ||
+func lvl(op string) int {
+	switch op {
+	case "||", "&&":
+		return 1
+	case "==", "!=", "~=":
+		return 2
+	case "<", "<=", ">", ">=":
+		return 3
+	case "+", "-":
+		return 4
+	case "*", "/":
+		return 5
+	}
+	panic("unknown operator " + op)
+}
+
+const lvlNot = 6
+
+// an identifier may contain '-': a minus sign directly after a name would become part of the name
+var identTail = regexp.MustCompile(`[A-Za-z_][A-Za-z0-9_-]*$`)
+
+func (s style) expr(x model.Expr, min int) string {
+	leafP := func(t string) string {
+		if s.LeafP {
+			return "(" + t + ")"
+		}
+		return t
+	}
+	switch t := x.(type) {
+	case model.Lit:
+		if str, ok := t.V.(string); ok && s.BQuote && !strings.Contains(str, "`") {
+			return leafP("`" + str + "`")
+		}
+		txt := model.Printer{}.Expr(t)
+		if _, ok := t.V.(float64); ok && s.Zero {
+			txt += "0"
+		}
+		return leafP(txt)
+	case model.Var:
+		return leafP(t.Name)
+	case model.Idx:
+		return leafP(model.Printer{}.Expr(t))
+	case model.Paren:
+		if s.Pad {
+			return "( " + s.expr(t.X, 0) + " )"
+		}
+		return "(" + s.expr(t.X, 0) + ")"
+	case model.Not:
+		sp := ""
+		if s.Pad {
+			sp = " "
+		}
+		txt := "!" + sp + s.expr(t.X, lvlNot)
+		if min > lvlNot {
+			return "(" + txt + ")"
+		}
+		return txt
+	case model.Bin:
+		l := lvl(t.Op)
+		ls, rs := s.expr(t.L, l), s.expr(t.R, l+1)
+		before := s.Before
+		if before == "" && t.Op == "-" && identTail.MatchString(ls) {
+			before = " "
+		}
+		txt := ls + before + t.Op + s.After + rs
+		if l < min {
+			return "(" + txt + ")"
+		}
+		return txt
+	case model.Call:
+		if len(t.Args) == 0 {
+			return leafP(t.Fn + "()")
+		}
+		parts := make([]string, len(t.Args))
+		for i, a := range t.Args {
+			parts[i] = s.expr(a, 0)
+		}
+		sep := ", "
+		if s.Before == "" && s.After == "" {
+			sep = ","
+		}
+		return t.Fn + "(" + strings.Join(parts, sep) + ")"
+	}
+	panic(fmt.Sprintf("style: cannot print %T", x))
+}
+
+func hashOf(s string) uint32 {
+	h := fnv.New32a()
+	h.Write([]byte(s))
+	return h.Sum32()
+}
+
+// checkExpr renders the minimal and the full parenthesisation and nstyles further spellings (all of them if < 0).
+func checkExpr(r *vk.Run, c Case, class string) *vk.Fail { return checkExprN(r, c, class, 1) }
+
+// sparse: the big depth-2 spaces are about tree shape, not about spelling: one further spelling for every eighth tree
+const sparse = -4
+
+func checkExprN(r *vk.Run, c Case, class string, nstyles int) *vk.Fail {
 	defer r.Watch("expr", c)()
 	x := c.Expr.toModel()
-	want, unspec := runModel(x)
+	want, unspec := runModelWith(x, modelDataFor(&c.Expr, map[string]interface{}{}))
 	if unspec != "" {
 		r.Exclude("unspecified")
 		return nil
 	}
 	min := model.Printer{}.Expr(x)
 	full := model.Printer{FullParens: true}.Expr(x)
-	for _, spelling := range []string{min, full} {
+	spellings := []string{min, full}
+	if nstyles == sparse {
+		nstyles = 0
+		if hashOf(min)%8 == 1 {
+			nstyles = 1
+		}
+	}
+	if nstyles < 0 || nstyles > len(styles) {
+		nstyles = len(styles)
+	}
+	for k, h := 0, int(hashOf(min)%uint32(len(styles))); k < nstyles; k++ {
+		st := styles[(h+k)%len(styles)]
+		if sp := st.expr(x, 0); sp != min && sp != full {
+			spellings = append(spellings, sp)
+			r.Class("spelling/" + st.Name)
+		}
+	}
+	d := dataFor(&c.Expr, map[string]interface{}{})
+	for _, spelling := range spellings {
 		src := "<% cap(" + spelling + ") %>"
-		got, res := runPlush(src)
+		got, res := runPlush(src, d, strings.Contains(min, "()"))
 		fail := func(f string, a ...interface{}) *vk.Fail {
-			return &vk.Fail{Kind: "expr", Case: c, Msg: fmt.Sprintf("%s: ", src) + fmt.Sprintf(f, a...)}
+			return &vk.Fail{Kind: "expr", Case: c, Msg: fmt.Sprintf("%q: ", src) + fmt.Sprintf(f, a...)}
 		}
 		if res.Panicked() {
 			return fail("%s", res)
@@ -232,7 +546,7 @@ func checkExpr(r *vk.Run, c Case, class string) *vk.Fail {
 	r.Count(nt, class)
 	if nt != "" {
 		r.Sample(func() interface{} {
-			return map[string]interface{}{"minimal": min, "full": full, "reference": fmt.Sprintf("%v err=%v", want.val, want.isErr), "trace": want.trace}
+			return map[string]interface{}{"minimal": min, "full": full, "other spellings": spellings[2:], "reference": fmt.Sprintf("%v err=%v", want.val, want.isErr), "trace": want.trace}
 		})
 	}
 	return nil
@@ -307,8 +621,27 @@ func leafValue(name string) interface{} {
 	return nil
 }
 
+var seqModes = []string{"fn", "loop", "text", "exec"}
+
+func validMode(m string) bool {
+	for _, x := range seqModes {
+		if x == m {
+			return true
+		}
+	}
+	return false
+}
+
 func checkSeq(r *vk.Run, c SeqCase, class string) *vk.Fail {
 	defer r.Watch("seq", c)()
+	if c.Mode == "text" || c.Mode == "exec" {
+		for _, row := range c.Rows {
+			if leafValue(row[0]) == nil || leafValue(row[1]) == nil {
+				r.Exclude("unspecified") // a name bound to nil is an unset name (C10)
+				return nil
+			}
+		}
+	}
 	d := map[string]interface{}{}
 	for k, v := range data {
 		d[k] = v
@@ -317,9 +650,10 @@ func checkSeq(r *vk.Run, c SeqCase, class string) *vk.Fail {
 	capOf := func(x model.Expr) model.Node {
 		return model.Code{S: model.ExprS{X: model.Call{Fn: "cap", Args: []model.Expr{x}}}}
 	}
+	pq := map[string]model.Expr{"p": model.Var{Name: "p"}, "q": model.Var{Name: "q"}}
 	switch c.Mode {
 	case "fn":
-		body := c.Expr.toModelWith(map[string]model.Expr{"p": model.Var{Name: "p"}, "q": model.Var{Name: "q"}})
+		body := c.Expr.toModelWith(pq)
 		prog = append(prog, model.Code{S: model.LetS{Name: "f", X: model.FnLit{Params: []string{"p", "q"}, Body: []model.Node{model.Code{S: model.ReturnS{X: body}}}}}})
 		for _, row := range c.Rows {
 			prog = append(prog, capOf(model.Call{Fn: "f", Args: []model.Expr{leaves[row[0]], leaves[row[1]]}}))
@@ -333,21 +667,24 @@ func checkSeq(r *vk.Run, c SeqCase, class string) *vk.Fail {
 		body := c.Expr.toModelWith(map[string]model.Expr{
 			"p": model.Idx{X: model.Var{Name: "row"}, I: model.Lit{V: 0}}, "q": model.Idx{X: model.Var{Name: "row"}, I: model.Lit{V: 1}}})
 		prog = append(prog, model.Code{S: model.ForS{For: &model.For{Val: "row", Iter: model.Var{Name: "rows"}, Body: []model.Node{capOf(body)}}}})
+	case "text":
+		// the expression is WRITTEN once per row (same text, another node), p and q are rebound in between
+		body := c.Expr.toModelWith(pq)
+		for i, row := range c.Rows {
+			if i == 0 {
+				prog = append(prog, model.Code{S: model.LetS{Name: "p", X: leaves[row[0]]}}, model.Code{S: model.LetS{Name: "q", X: leaves[row[1]]}})
+			} else {
+				prog = append(prog, model.Code{S: model.AssignS{Name: "p", X: leaves[row[0]]}}, model.Code{S: model.AssignS{Name: "q", X: leaves[row[1]]}})
+			}
+			prog = append(prog, capOf(body))
+		}
+	case "exec":
+		return checkSeqExec(r, c, class)
 	default:
 		return &vk.Fail{Kind: "decode", Msg: "unknown mode"}
 	}
-	type run struct {
-		vals  []interface{}
-		trace []int
-	}
-	mk := func(o *run) map[string]model.Helper {
-		return map[string]model.Helper{
-			"t":   func(a []interface{}) (interface{}, error) { o.trace = append(o.trace, a[0].(int)); return a[1], nil },
-			"cap": func(a []interface{}) (interface{}, error) { o.vals = append(o.vals, a[0]); return nil, nil },
-		}
-	}
-	var want, got run
-	ref := model.Run(prog, d, mk(&want))
+	var want, got seqRun
+	ref := model.Run(prog, d, want.helpers())
 	if ref.Unspec != "" {
 		r.Exclude("unspecified")
 		return nil
@@ -356,11 +693,7 @@ func checkSeq(r *vk.Run, c SeqCase, class string) *vk.Fail {
 	fail := func(f string, a ...interface{}) *vk.Fail {
 		return &vk.Fail{Kind: "seq", Case: c, Msg: fmt.Sprintf("%s  rows %v: ", src, c.Rows) + fmt.Sprintf(f, a...)}
 	}
-	d2 := map[string]interface{}{}
-	for k, v := range d {
-		d2[k] = v
-	}
-	res := vk.Safe(func() (string, error) { return plush.Render(src, model.Context(d2, mk(&got))) })
+	res := vk.Safe(func() (string, error) { return plush.Render(src, model.Context(plushData(d), got.helpers())) })
 	kinds := map[string]bool{}
 	for _, v := range want.vals {
 		kinds[fmt.Sprintf("%T", v)] = true
@@ -399,6 +732,271 @@ func checkSeq(r *vk.Run, c SeqCase, class string) *vk.Fail {
 		return fail("operands evaluated in order %v, reference says %v", got.trace, want.trace)
 	}
 	return nil
+}
+
+// checkSeqExec: the template <% cap(EXPR) %> is parsed ONCE and executed once per row, p and q coming from the
+// context of that execution; every execution is compared with the reference on its own.
+func checkSeqExec(r *vk.Run, c SeqCase, class string) *vk.Fail {
+	body := c.Expr.toModelWith(map[string]model.Expr{"p": model.Var{Name: "p"}, "q": model.Var{Name: "q"}})
+	prog := []model.Node{model.Code{S: model.ExprS{X: model.Call{Fn: "cap", Args: []model.Expr{body}}}}}
+	src := model.Printer{}.Nodes(prog)
+	fail := func(f string, a ...interface{}) *vk.Fail {
+		return &vk.Fail{Kind: "seq", Case: c, Msg: fmt.Sprintf("%s parsed once, executed for rows %v: ", src, c.Rows) + fmt.Sprintf(f, a...)}
+	}
+	var tmpl *plush.Template
+	if res := vk.Safe(func() (string, error) { var err error; tmpl, err = plush.Parse(src); return "", err }); res.Panicked() || res.Err != nil {
+		return fail("does not parse: %s", res)
+	}
+	kinds := map[string]bool{}
+	for i, row := range c.Rows {
+		d := map[string]interface{}{}
+		for k, v := range data {
+			d[k] = v
+		}
+		d["p"], d["q"] = leafValue(row[0]), leafValue(row[1])
+		var want, got seqRun
+		ref := model.Run(prog, d, want.helpers())
+		if ref.Unspec != "" {
+			r.Exclude("unspecified")
+			return nil
+		}
+		res := vk.Safe(func() (string, error) { return tmpl.Exec(model.Context(plushData(d), got.helpers())) })
+		switch {
+		case res.Panicked():
+			return fail("execution %d: %s", i+1, res)
+		case ref.Err != "" && res.Err == nil:
+			return fail("execution %d: reference says error (%s), got values %v", i+1, ref.Err, got.vals)
+		case ref.Err != "":
+			continue
+		case res.Err != nil:
+			return fail("execution %d: reference values %v, failed: %v", i+1, want.vals, res.Err)
+		case len(got.vals) != 1 || !sameVal(got.vals[0], want.vals[0]):
+			return fail("execution %d gave %v, reference says %s", i+1, got.vals, model.Describe(want.vals[0]))
+		case !reflect.DeepEqual(got.trace, want.trace):
+			return fail("execution %d: operands evaluated in order %v, reference says %v", i+1, got.trace, want.trace)
+		}
+		kinds[fmt.Sprintf("%T", want.vals[0])] = true
+	}
+	nt := ""
+	if len(c.Rows) >= 2 {
+		nt = fmt.Sprintf("SEQ|exec|%s|%v", src, c.Rows)
+	}
+	r.Count(nt, fmt.Sprintf("%s/exec/kinds=%d", class, len(kinds)))
+	return nil
+}
+
+// ---- the expression at other places of a template -----------------------------------------
+
+// SiteCase: the value of an expression does not depend on where it stands. The same tree is the operand of an output
+// tag, the right side of let / assignment, an element of an array or hash literal, an argument in second position, the
+// value returned by and the argument passed to a template function, the condition of if / else if, an index.
+type SiteCase struct {
+	Expr E      `json:"expr"`
+	Site string `json:"site"`
+}
+
+var sites = []string{"emit", "let", "assign", "arr", "arr0", "hash", "arg2", "fnret", "fnarg", "if", "elseif", "emitif", "index", "for", "twice"}
+
+func validSite(s string) bool {
+	for _, x := range sites {
+		if x == s {
+			return true
+		}
+	}
+	return false
+}
+
+func siteProg(site string, x model.Expr) []model.Node {
+	capOf := func(e model.Expr) model.Node {
+		return model.Code{S: model.ExprS{X: model.Call{Fn: "cap", Args: []model.Expr{e}}}}
+	}
+	lit := func(v interface{}) model.Expr { return model.Lit{V: v} }
+	v := model.Var{Name: "v"}
+	switch site {
+	case "emit":
+		return []model.Node{model.Text{S: "["}, model.Emit{X: x}, model.Text{S: "]"}}
+	case "let":
+		return []model.Node{model.Code{S: model.LetS{Name: "v", X: x}}, capOf(v)}
+	case "assign":
+		return []model.Node{model.Code{S: model.LetS{Name: "v", X: lit(0)}}, model.Code{S: model.AssignS{Name: "v", X: x}}, capOf(v)}
+	case "arr":
+		return []model.Node{capOf(model.Idx{X: model.Arr{Els: []model.Expr{lit(1), x}}, I: lit(1)})}
+	case "arr0":
+		return []model.Node{capOf(model.Idx{X: model.Arr{Els: []model.Expr{x, lit(1)}}, I: lit(0)})}
+	case "hash":
+		return []model.Node{capOf(model.Idx{X: model.Hash{KVs: []model.KV{{K: "k", V: x}, {K: "j", V: lit(1)}}}, I: lit("k")})}
+	case "arg2":
+		return []model.Node{capOf(model.Call{Fn: "snd", Args: []model.Expr{lit(9), x}})}
+	case "fnret":
+		return []model.Node{model.Code{S: model.LetS{Name: "f", X: model.FnLit{Body: []model.Node{model.Code{S: model.ReturnS{X: x}}}}}}, capOf(model.Call{Fn: "f"})}
+	case "fnarg":
+		return []model.Node{model.Code{S: model.LetS{Name: "f", X: model.FnLit{Params: []string{"a"}, Body: []model.Node{model.Code{S: model.ReturnS{X: model.Var{Name: "a"}}}}}}}, capOf(model.Call{Fn: "f", Args: []model.Expr{x}})}
+	case "if":
+		return []model.Node{model.Code{S: model.IfS{If: &model.If{Cond: x, Then: []model.Node{capOf(lit(1))}, Else: []model.Node{capOf(lit(0))}, HasElse: true}}}}
+	case "elseif":
+		return []model.Node{model.Code{S: model.IfS{If: &model.If{Cond: lit(false), Then: []model.Node{capOf(lit(2))},
+			ElseIfs: []model.ElseIf{{Cond: x, Then: []model.Node{capOf(lit(1))}}}, Else: []model.Node{capOf(lit(0))}, HasElse: true}}}}
+	case "emitif":
+		return []model.Node{model.EmitIf{If: &model.If{Cond: x, Then: []model.Node{model.Text{S: "T"}}, Else: []model.Node{model.Text{S: "F"}}, HasElse: true}}}
+	case "index":
+		return []model.Node{capOf(model.Idx{X: model.Var{Name: "xs"}, I: x})}
+	case "for":
+		return []model.Node{model.Code{S: model.ForS{For: &model.For{Val: "e", Iter: model.Arr{Els: []model.Expr{x}}, Body: []model.Node{capOf(model.Var{Name: "e"})}}}}}
+	case "twice": // two statements in a row: the second begins where the first ends
+		return []model.Node{capOf(x), model.Emit{X: x}, capOf(x)}
+	}
+	panic("unknown site " + site)
+}
+
+type seqRun struct {
+	vals  []interface{}
+	trace []int
+}
+
+func (o *seqRun) helpers() map[string]model.Helper {
+	return addConstHelpers(map[string]model.Helper{
+		"t":   func(a []interface{}) (interface{}, error) { o.trace = append(o.trace, a[0].(int)); return a[1], nil },
+		"cap": func(a []interface{}) (interface{}, error) { o.vals = append(o.vals, a[0]); return nil, nil },
+		"snd": func(a []interface{}) (interface{}, error) { return a[1], nil },
+	})
+}
+
+// compareProg renders prog with both printers and compares output, captured values, helper order and error-ness
+// with the reference interpreter. ok=false: the reference leaves the program open.
+func compareProg(prog []model.Node, d map[string]interface{}, fail func(src, msg string) *vk.Fail) (f *vk.Fail, ok bool, ref model.Result, want seqRun) {
+	ref = model.Run(prog, d, want.helpers())
+	if ref.Unspec != "" {
+		return nil, false, ref, want
+	}
+	for _, pr := range []model.Printer{{}, {FullParens: true}} {
+		src := pr.Nodes(prog)
+		var got seqRun
+		res := vk.Safe(func() (string, error) { return plush.Render(src, model.Context(plushData(d), got.helpers())) })
+		switch {
+		case res.Panicked():
+			return fail(src, res.String()), true, ref, want
+		case ref.Err != "" && res.Err == nil:
+			return fail(src, fmt.Sprintf("reference says this is an error (%s), render succeeded with output %q and values %v", ref.Err, res.Out, got.vals)), true, ref, want
+		case ref.Err != "":
+			if res.Out != "" {
+				return fail(src, fmt.Sprintf("error with non-empty output %q", res.Out)), true, ref, want
+			}
+			continue
+		case res.Err != nil:
+			return fail(src, fmt.Sprintf("reference output %q values %v, render failed: %v", ref.Out, want.vals, res.Err)), true, ref, want
+		}
+		if html.UnescapeString(res.Out) != html.UnescapeString(ref.Out) {
+			return fail(src, fmt.Sprintf("output %q, reference says %q", res.Out, ref.Out)), true, ref, want
+		}
+		if len(got.vals) != len(want.vals) {
+			return fail(src, fmt.Sprintf("%d values captured %v, reference says %d %v", len(got.vals), got.vals, len(want.vals), want.vals)), true, ref, want
+		}
+		for i := range want.vals {
+			if !sameVal(got.vals[i], want.vals[i]) {
+				return fail(src, fmt.Sprintf("value %d is %s, reference says %s", i+1, model.Describe(got.vals[i]), model.Describe(want.vals[i]))), true, ref, want
+			}
+		}
+		if !reflect.DeepEqual(got.trace, want.trace) {
+			return fail(src, fmt.Sprintf("operands evaluated in order %v, reference says %v", got.trace, want.trace)), true, ref, want
+		}
+	}
+	return nil, true, ref, want
+}
+
+func (e *E) hasLeaf(name string) bool {
+	switch {
+	case e.Leaf != "":
+		return e.Leaf == name
+	case e.Not != nil:
+		return e.Not.hasLeaf(name)
+	case e.Paren != nil:
+		return e.Paren.hasLeaf(name)
+	}
+	return e.L.hasLeaf(name) || e.R.hasLeaf(name)
+}
+
+func checkSite(r *vk.Run, c SiteCase, class string) *vk.Fail {
+	defer r.Watch("site", c)()
+	x := c.Expr.toModel()
+	// a name bound to nil is an unset name (C10), and what an unknown identifier nested in a larger expression means
+	// at these places is another property's business: neither is asserted here
+	if o, unspec := runModel(x); unspec != "" || (!o.isErr && o.val == nil) || c.Expr.hasLeaf("unk") {
+		r.Exclude("unspecified")
+		return nil
+	}
+	prog := siteProg(c.Site, x)
+	f, ok, ref, want := compareProg(prog, data, func(src, msg string) *vk.Fail {
+		return &vk.Fail{Kind: "site", Case: c, Msg: fmt.Sprintf("%q: %s", src, msg)}
+	})
+	if !ok {
+		r.Exclude("unspecified")
+		return nil
+	}
+	min := model.Printer{}.Nodes(prog)
+	nt := ""
+	if c.Site != "" {
+		nt = "SITE|" + min
+	}
+	outcome := "value"
+	if ref.Err != "" {
+		outcome = "error"
+	}
+	r.Count(nt, class+"/"+c.Site+"/"+outcome)
+	r.Sample(func() interface{} {
+		return map[string]interface{}{"template": min, "reference_output": ref.Out, "reference_values": fmt.Sprint(want.vals), "reference_error": ref.Err}
+	})
+	return f
+}
+
+// ---- flat operator sequences and deep nesting ----------------------------------------------
+
+// climb builds the tree the statement prescribes for the unparenthesised text l0 op0 l1 op1 l2 ...: operators of a
+// higher level bind first, operators of one level group from the left.
+func climb(ls []*E, ops []string) *E {
+	pos := 0
+	var parse func(min int) *E
+	parse = func(min int) *E {
+		left := ls[pos]
+		for pos < len(ops) && lvl(ops[pos]) >= min {
+			op := ops[pos]
+			pos++
+			right := parse(lvl(op) + 1)
+			left = &E{Op: op, L: left, R: right}
+		}
+		return left
+	}
+	return parse(0)
+}
+
+// flatCase turns a flat sequence into a tree case and makes sure that the minimal spelling of that tree is the flat
+// text again (a disagreement would be a defect of this harness, not of plush).
+func flatCase(ls []*E, ops []string) Case {
+	e := climb(ls, ops)
+	var sb strings.Builder
+	for i, l := range ls {
+		if i > 0 {
+			sb.WriteString(" " + ops[i-1] + " ")
+		}
+		sb.WriteString(model.Printer{}.Expr(l.toModel()))
+	}
+	if got := (model.Printer{}).Expr(e.toModel()); got != sb.String() {
+		panic(fmt.Sprintf("harness: flat text %q, minimal spelling of its tree %q", sb.String(), got))
+	}
+	return Case{Expr: *e}
+}
+
+func nots(e *E, n int) *E {
+	for ; n > 0; n-- {
+		e = &E{Not: e}
+	}
+	return e
+}
+
+func parens(e *E, n int) *E {
+	for ; n > 0; n-- {
+		e = &E{Paren: e}
+	}
+	return e
 }
 
 // ---- generators ----------------------------------------------------------------
@@ -491,7 +1089,7 @@ func (g *gen) typed(kind string, d int) *E {
 	return bin(rapid.SampledFrom(binOps).Draw(t, "op"), g.typed("any", d-1), g.typed("any", d-1))
 }
 
-const rule = "expression trees over a pool of int/float/string/bool/nil leaves (literals and variables, incl. negative numbers, a 2^53+1 integer, floats whose printed form has an exponent (1000000.0, 2.5e9, 0.00001), an unknown identifier) and the operators + - * / < <= > >= == != ~= && || ! and parentheses. (E) every tree of depth <=2 - all leaf pairs x 13 operators, !leaf, and both association shapes (a op1 b) op2 c / a op1 (b op2 c) over a 13-leaf (quick: 7-leaf) pool; (R) type-directed random trees to depth 5 in which every node is specified, plus deliberately ill-typed nodes that must be errors, with random redundant parentheses and operands wrapped in a recording helper t(i, x). Every tree is printed with the minimal parentheses implied by the stated precedence/left-associativity and fully parenthesised; both spellings are rendered as <% cap(EXPR) %> and the captured typed Go value, the helper invocation order (left-to-right, short-circuit) and error-ness must equal the reference evaluator's. SEQUENCES: one expression over the variables p and q is evaluated 2-4 times within one render (as the body of a template function called once per operand pair, or inside a loop over the pairs), the operand kinds changing from one evaluation to the next: (S1) p OP q for all 13 operators x every ordered pair (A, B) of 21 operand pairs that have a value, evaluated A, B, A, and every value pair followed by every error pair; (SR) random shapes to depth 3 over p, q and literals with random rows; every captured value and the operand evaluation order must equal the reference evaluator's. Trees whose meaning the statement does not fix (bool==non-bool, string<non-string, string+nil, int overflow, float Inf/NaN, ~= on non-strings) are counted under excluded:unspecified and not asserted. Non-trivial = depth >= 2 or an error outcome; distinct by minimal spelling."
+const rule = "expression trees over a pool of int/float/string/bool/nil leaves (literals and variables, incl. negative numbers, a 2^53+1 integer as variable and as literal, literals 10 / 2^31 / the largest integer, the extreme integers as variables, floats whose printed form has an exponent (1000000.0, 123456789.0, 2.5e9, 0.00001, 1e-10), floats that are not exactly representable (0.1 0.2 0.3), minus zero, strings that look like numbers, truth values or operators, upper case, non-ASCII, an embedded quote, an unknown identifier) and the operators + - * / < <= > >= == != ~= && || ! and parentheses. (E) every tree of depth <=2 - all leaf pairs of the whole pool x 13 operators, !leaf, !!leaf, and both association shapes (a op1 b) op2 c / a op1 (b op2 c) over a 13-leaf (quick: 7-leaf) pool and five homogeneous pools; (F) FLAT unparenthesised sequences a o1 b o2 c o3 d for every operator triple x 8 (quick 6) operand rows, the tree being derived from the stated precedence order by a precedence-climbing parser of the check itself, and runs of 3..257 (thorough 3000) operands joined by one operator or the operators of one level; (N) redundant parentheses, repeated ! and right-nested chains to depth 400 (thorough 1500); (P) operands that are not literals or plain names: x[i], m[\"k\"], s.F, s.In.F, xs[i].F, f() - every pair x 13 operators and depth 2 over mixed spellings, with template variables named like the fields and keys present; (I) int64 variables: every pair x 13 operators and depth 2 (only trees whose integer leaves are all int64 are asserted); (R) type-directed random trees to depth 5 in which every node is specified, plus deliberately ill-typed nodes that must be errors, with random redundant parentheses and operands wrapped in a recording helper t(i, x); typed random flat sequences of up to ~40 operands with negated operands and one ill-typed joint in ten. Every tree is printed with the minimal parentheses implied by the stated precedence/left-associativity and fully parenthesised, and (all of the small spaces, one in eight of the big depth-2 spaces) in one to six further SPELLINGS: operators glued to both operands, to the right one only (7 -2), to the left one only, two blanks / tab, line ends around every operator with back-quoted strings, every leaf in parentheses of its own, blanks inside parentheses and after !, float literals with a trailing zero (a minus sign is never glued to a preceding name: names may contain it); all spellings are rendered as <% cap(EXPR) %> and the captured typed Go value, the helper invocation order (left-to-right, short-circuit) and error-ness must equal the reference evaluator's. SITES: the same trees (all leaf pairs x 13 operators, all operator pairs in both shapes, random typed trees) as the operand of <%= %>, the right side of let and of assignment, an array element (first / last), a hash value, a second argument, the value returned by / the argument passed to a template function, the condition of if / else if / <%= if %>, an index, the element looped over, and three times in a row; output, captured values and helper order must equal the reference interpreter's for the whole template (values that are nil and trees naming the unknown identifier are left out: C10, C05). SEQUENCES: one expression over the variables p and q is evaluated 2-4 times (as the body of a template function called once per operand pair; inside a loop over the pairs; WRITTEN once per pair with p and q re-assigned in between; as one parsed template executed once per pair), the operand kinds changing from one evaluation to the next: (S1) p OP q for all 13 operators x every ordered pair (A, B) of 28 operand pairs that have a value - among them pairs of different kinds that print alike (2 2 / 2.0 2.0 / \"2\" \"2\") - evaluated A, B, A, and every value pair followed by every error pair; (SR) random shapes to depth 3 over p, q and literals with random rows; every captured value and the operand evaluation order must equal the reference evaluator's. Trees whose meaning the statement does not fix (bool==non-bool, string<non-string, string+nil, int overflow, float Inf/NaN, ~= on non-strings, int64 mixed with int) are counted under excluded:unspecified and not asserted. Non-trivial = depth >= 2 or an error outcome (every site and every sequence of >= 2 evaluations); distinct by minimal spelling / template text."
 
 func setup(t *testing.T) *vk.Run {
 	r := vk.Start(t, "C06", rule,
@@ -507,12 +1105,22 @@ func setup(t *testing.T) *vk.Run {
 		}
 		return checkExpr(r, c, "replay")
 	})
+	r.Replayer("site", func(raw json.RawMessage) *vk.Fail {
+		var c SiteCase
+		if f := vk.Decode(raw, &c); f != nil {
+			return f
+		}
+		if !c.Expr.valid() || !validSite(c.Site) {
+			return &vk.Fail{Kind: "decode", Msg: "malformed site case"}
+		}
+		return checkSite(r, c, "replay")
+	})
 	r.Replayer("seq", func(raw json.RawMessage) *vk.Fail {
 		var c SeqCase
 		if f := vk.Decode(raw, &c); f != nil {
 			return f
 		}
-		if !c.Expr.validPQ() || (c.Mode != "fn" && c.Mode != "loop") {
+		if !c.Expr.validPQ() || !validMode(c.Mode) {
 			return &vk.Fail{Kind: "decode", Msg: "malformed sequence case"}
 		}
 		for _, row := range c.Rows {
@@ -541,7 +1149,9 @@ func TestProp(t *testing.T) {
 	// depth 1: every leaf pair over the whole pool, and !leaf
 	var all []string
 	for k := range leaves {
-		all = append(all, k)
+		if !isI64(k) && !isPath(k) {
+			all = append(all, k)
+		}
 	}
 	sortStrings(all)
 	n1 := int64(len(all) * len(all) * len(binOps))
@@ -550,11 +1160,11 @@ func TestProp(t *testing.T) {
 		op := binOps[i%int64(len(binOps))]
 		j := i / int64(len(binOps))
 		a, b := all[j%int64(len(all))], all[j/int64(len(all))]
-		r.Check(checkExpr(r, Case{Expr: E{Op: op, L: leaf(a), R: leaf(b)}}, "E1"))
+		r.Check(checkExprN(r, Case{Expr: E{Op: op, L: leaf(a), R: leaf(b)}}, "E1", r.Pick(1, -1)))
 	})
 	for _, a := range all {
-		r.Check(checkExpr(r, Case{Expr: E{Not: leaf(a)}}, "E1"))
-		r.Check(checkExpr(r, Case{Expr: E{Not: &E{Not: leaf(a)}}}, "E1"))
+		r.Check(checkExprN(r, Case{Expr: E{Not: leaf(a)}}, "E1", -1))
+		r.Check(checkExprN(r, Case{Expr: E{Not: &E{Not: leaf(a)}}}, "E1", -1))
 	}
 	// depth 2: both association shapes
 	np, no := int64(len(pool)), int64(len(binOps))
@@ -572,7 +1182,7 @@ func TestProp(t *testing.T) {
 		} else {
 			e = E{Op: o1, L: leaf(a), R: &E{Op: o2, L: leaf(b), R: leaf(c)}}
 		}
-		r.Check(checkExpr(r, Case{Expr: e}, "E2"))
+		r.Check(checkExprN(r, Case{Expr: e}, "E2", sparse))
 	})
 	// depth 2 over homogeneous pools, where most trees have values rather than errors
 	for gi, grp := range [][]string{{"0", "2", "7", "n3"}, {"1.5", "0.0", "2.0", "nf"}, {`"a"`, `"b2"`, `""`, `"^a"`}, {"true", "false", "nil", "unk"}, {"2", `"a"`, "true", "1.5"}} {
@@ -592,7 +1202,7 @@ func TestProp(t *testing.T) {
 			} else {
 				e = E{Op: o1, L: leaf(a), R: &E{Op: o2, L: leaf(b), R: leaf(c)}}
 			}
-			r.Check(checkExpr(r, Case{Expr: e}, fmt.Sprintf("E2h%d", gi)))
+			r.Check(checkExprN(r, Case{Expr: e}, fmt.Sprintf("E2h%d", gi), sparse))
 		})
 	}
 	// ! inside and outside binary operators
@@ -606,13 +1216,338 @@ func TestProp(t *testing.T) {
 		}
 	}
 
+	flatPhases(r)
+	nestPhases(r)
+	i64Phases(r)
+	pathPhases(r)
+	sitePhases(r)
+
 	r.Rapid("typed-trees", r.Pick(8000, 120000), func(t *rapid.T) *vk.Fail {
 		g := &gen{t: t}
 		kind := rapid.SampledFrom([]string{"int", "float", "string", "bool", "bool", "any"}).Draw(t, "kind")
 		e := g.typed(kind, rapid.IntRange(1, 5).Draw(t, "depth"))
 		return checkExpr(r, Case{Expr: *e}, "R/"+kind)
 	})
+	r.Rapid("typed-trees-at-sites", r.Pick(2000, 30000), func(t *rapid.T) *vk.Fail {
+		g := &gen{t: t}
+		kind := rapid.SampledFrom([]string{"int", "float", "string", "bool", "bool", "any"}).Draw(t, "kind")
+		e := g.typed(kind, rapid.IntRange(1, 4).Draw(t, "depth"))
+		return checkSite(r, SiteCase{Expr: *e, Site: rapid.SampledFrom(sites).Draw(t, "site")}, "RS")
+	})
+	r.Rapid("flat-sequences", r.Pick(3000, 40000), func(t *rapid.T) *vk.Fail {
+		ls, ops := (&gen{t: t}).flat()
+		return checkExprN(r, flatCase(ls, ops), "RF", 1)
+	})
 	seqPhases(r)
+}
+
+// flatRows: four operands of one kind each (and mixed rows), so that most operator triples have a value
+var flatRows = [][4]string{{"7", "2", "1", "10"}, {"10", "n3", "2", "7"}, {"1.5", "0.5", "2.0", "0.1"}, {`"a"`, `"b2"`, `"A"`, `"^a"`},
+	{"true", "false", "vt", "vf"}, {"0.1", "0.2", "0.3", "0.5"}, {"false", "true", "nil", "true"}, {`"a"`, "2", "1.5", "true"}, {"2", "7", "true", "false"}}
+
+// flatPhases: unparenthesised sequences a o1 b o2 c o3 d for EVERY operator triple (the depth-2 spaces hold pairs
+// only), and long runs of one operator and of one level.
+func flatPhases(r *vk.Run) {
+	no := int64(len(binOps))
+	rows := flatRows
+	if r.Quick() {
+		rows = flatRows[:6]
+	}
+	n := no * no * no * int64(len(rows))
+	r.Subspace(fmt.Sprintf("flat: a o1 b o2 c o3 d, 13^3 operator triples x %d operand rows, no parentheses", len(rows)), n, true)
+	r.Parallel(n, 0, func(i int64) {
+		o1, o2, o3 := binOps[i%no], binOps[(i/no)%no], binOps[(i/no/no)%no]
+		row := rows[i/no/no/no]
+		r.Check(checkExprN(r, flatCase([]*E{leaf(row[0]), leaf(row[1]), leaf(row[2]), leaf(row[3])}, []string{o1, o2, o3}), "F3", 1))
+	})
+	// long runs: n operands joined by one operator, or by the operators of one level in turn
+	type run struct {
+		ops  []string
+		head string
+		tail []string
+	}
+	runs := []run{
+		{[]string{"-"}, "big", []string{"1", "2", "7"}}, {[]string{"/"}, "big", []string{"2", "1", "n1"}}, {[]string{"+", "-"}, "10", []string{"7", "2", "n3"}},
+		{[]string{"*", "/"}, "7", []string{"2", "2", "1"}}, {[]string{"-"}, "1000000.0", []string{"0.5", "1.5"}}, {[]string{"/"}, "fbig", []string{"2.0", "0.5", "1.5"}},
+		{[]string{"+"}, `"b2"`, []string{"1", "1.5", "true", `"a"`}}, {[]string{"&&"}, "true", []string{"vt", "1", `"a"`}}, {[]string{"||"}, "false", []string{"vf", "nil", "unk"}},
+		{[]string{"&&", "||"}, "true", []string{"false", "vt", "nil"}}, {[]string{"==", "!="}, "true", []string{"vt", "false", "vf"}}, {[]string{"==", "~="}, `"a"`, []string{`"a"`}},
+		{[]string{"<"}, "1", []string{"2", "7"}}, {[]string{"+", "*", "-", "/"}, "10", []string{"7", "2", "1", "n3"}},
+	}
+	lens := []int{3, 4, 5, 6, 7, 8, 9, 12, 16, 17, 31, 32, 33, 63, 64, 65, 100, 255, 256, 257}
+	if r.Thorough() {
+		lens = append(lens, 500, 1000, 3000)
+	}
+	var m int64
+	for _, ru := range runs {
+		for _, n := range lens {
+			if r.Mine(m) {
+				ls := []*E{leaf(ru.head)}
+				var ops []string
+				for k := 1; k < n; k++ {
+					ls = append(ls, leaf(ru.tail[(k-1)%len(ru.tail)]))
+					ops = append(ops, ru.ops[(k-1)%len(ru.ops)])
+				}
+				r.Check(checkExprN(r, flatCase(ls, ops), "Flong", 1))
+			}
+			m++
+		}
+	}
+	r.Subspace("flat: runs of 3..257 (thorough 3000) operands joined by one operator or by the operators of one level in turn, 14 operand/operator rows", m, true)
+}
+
+// nestPhases: the same small expression under d pairs of redundant parentheses, d-fold negation, right-nested
+// chains a - (b - (c - ...)) of depth d.
+func nestPhases(r *vk.Run) {
+	var depths []int
+	for d := 1; d <= 40; d++ {
+		depths = append(depths, d)
+	}
+	depths = append(depths, 63, 64, 65, 100, 128, 200, 255, 256, 257, 400)
+	if r.Thorough() {
+		depths = append(depths, 1000, 1500)
+	}
+	var m int64
+	for _, d := range depths {
+		cases := []E{
+			{Op: "-", L: parens(&E{Op: "-", L: leaf("7"), R: leaf("2")}, d), R: leaf("1")},
+			{Op: "-", L: leaf("7"), R: parens(&E{Op: "-", L: leaf("2"), R: leaf("1")}, d)},
+			{Op: "*", L: parens(&E{Op: "+", L: parens(leaf("7"), d), R: leaf("2")}, d), R: leaf("n3")},
+			*nots(leaf("true"), d), *nots(leaf("nil"), d), *nots(leaf("0"), d),
+			{Op: "==", L: nots(leaf("vt"), d), R: nots(leaf("false"), d+1)},
+			{Op: "&&", L: nots(parens(nots(leaf("vf"), 1), d), 1), R: leaf("true")},
+		}
+		// right-nested: l1 op (l2 op (l3 op ...)): needs its parentheses, the full spelling nests twice as deep
+		for _, op := range []string{"-", "/", "+", "&&", "=="} {
+			pool := map[string][]string{"-": {"10", "7", "2", "1"}, "/": {"big", "2", "1", "n1"}, "+": {`"a"`, "1", "1.5", `"b2"`}, "&&": {"true", "vt", "1"}, "==": {"true", "false", "vt"}}[op]
+			e := leaf(pool[d%len(pool)])
+			for k := d - 1; k >= 0; k-- {
+				e = &E{Op: op, L: leaf(pool[k%len(pool)]), R: e}
+			}
+			cases = append(cases, *e)
+		}
+		for _, e := range cases {
+			if r.Mine(m) {
+				r.Check(checkExprN(r, Case{Expr: e}, "Nest", 1))
+			}
+			m++
+		}
+	}
+	r.Subspace("nesting: redundant parentheses, repeated !, right-nested chains of depth 1..40, 63..65, 100, 128, 200, 255..257, 400 (thorough 1500)", m, true)
+}
+
+// firstOf keeps, of all failures of one root cause, the one with the smallest cell index: one root cause, one
+// VIOLATION, and the same witness whatever the scheduling of the parallel workers was.
+type firstOf struct {
+	mu    sync.Mutex
+	class string
+	at    int64
+	f     *vk.Fail
+	n     int
+}
+
+func (c *firstOf) add(i int64, f *vk.Fail) {
+	if f == nil {
+		return
+	}
+	c.mu.Lock()
+	defer c.mu.Unlock()
+	c.n++
+	if c.f == nil || i < c.at {
+		c.at, c.f = i, f
+	}
+}
+
+func (c *firstOf) report(r *vk.Run) {
+	if c.f == nil {
+		return
+	}
+	c.f.Class = c.class
+	c.f.Msg = fmt.Sprintf("[class %s, %d cases fail] ", c.class, c.n) + c.f.Msg
+	r.Check(c.f)
+}
+
+// i64Phases: integer operands that reach the template as Go int64 (database keys, counters). Only trees whose
+// integer leaves are ALL int64 variables are asserted; int64 mixed with an int literal or variable is a pair of
+// different integer types, which the statement does not settle.
+func i64Phases(r *vk.Run) {
+	np, no := int64(len(i64Leaves)), int64(len(binOps))
+	n1 := np * np * no
+	r.Subspace("int64 operands: every pair of 4 int64 variables x 13 operators", n1, true)
+	pair := &firstOf{class: "int64-pair"}
+	for i := int64(0); i < n1; i++ {
+		if r.Mine(i) {
+			pair.add(i, checkExprN(r, Case{Expr: E{Op: binOps[i%no], L: leaf(i64Leaves[(i/no)%np]), R: leaf(i64Leaves[i/no/np])}}, "I64/1", 1))
+		}
+	}
+	pair.report(r)
+	np = int64(r.Pick(3, 4))
+	n2 := np * np * np * no * no * 2
+	r.Subspace(fmt.Sprintf("int64 operands: depth 2, %d^3 int64 variables x 13^2 operators x 2 association shapes", np), n2, true)
+	meets := &firstOf{class: "int64-result-meets-int64"}
+	defer meets.report(r)
+	r.Parallel(n2, 0, func(i int64) {
+		cell := i
+		shape := i % 2
+		i /= 2
+		o1, o2 := binOps[i%no], binOps[(i/no)%no]
+		i /= no * no
+		a, b, c := i64Leaves[i%np], i64Leaves[(i/np)%np], i64Leaves[i/np/np]
+		var e E
+		if shape == 0 {
+			e = E{Op: o2, L: &E{Op: o1, L: leaf(a), R: leaf(b)}, R: leaf(c)}
+		} else {
+			e = E{Op: o1, L: leaf(a), R: &E{Op: o2, L: leaf(b), R: leaf(c)}}
+		}
+		meets.add(cell, checkExprN(r, Case{Expr: e}, "I64/2", 0))
+	})
+}
+
+// pathPhases: operands that are indexed elements, map values, struct fields (also nested and of an element) and
+// calls: every pair x 13 operators, !operand, and depth 2 in both shapes over one operand of each spelling.
+func pathPhases(r *vk.Run) {
+	np, no := int64(len(pathLeaves)), int64(len(binOps))
+	n1 := np * np * no
+	r.Subspace(fmt.Sprintf("operands spelled as x[i], m[\"k\"], s.F, s.In.F, xs[i].F, f(): every pair of %d x 13 operators, plus !operand", np), n1+np, true)
+	r.Parallel(n1, 0, func(i int64) {
+		r.Check(checkExprN(r, Case{Expr: E{Op: binOps[i%no], L: leaf(pathLeaves[(i/no)%np]), R: leaf(pathLeaves[i/no/np])}}, "P1", r.Pick(1, -1)))
+	})
+	for _, a := range pathLeaves {
+		r.Check(checkExprN(r, Case{Expr: E{Not: leaf(a)}}, "P1", -1))
+	}
+	groups := [][]string{{"pa[0]", "st.M", "h2()", "ps[1].N"}, {"pa[3]", "hn()", "st.In.N", `mp["b"]`}, {"pa[4]", "st.B", "hs()", "ps[0].S"}, {"st.S", `mp["k"]`, "2", "n3"}}
+	for gi, grp := range groups[:r.Pick(2, 4)] {
+		grp := grp[:r.Pick(3, 4)]
+		ng := int64(len(grp))
+		n := ng * ng * ng * no * no * 2
+		r.Subspace(fmt.Sprintf("operands %v: depth 2, %d^3 x 13^2 x 2 shapes", grp, ng), n, true)
+		r.Parallel(n, 0, func(i int64) {
+			shape := i % 2
+			i /= 2
+			o1, o2 := binOps[i%no], binOps[(i/no)%no]
+			i /= no * no
+			a, b, c := grp[i%ng], grp[(i/ng)%ng], grp[i/ng/ng]
+			var e E
+			if shape == 0 {
+				e = E{Op: o2, L: &E{Op: o1, L: leaf(a), R: leaf(b)}, R: leaf(c)}
+			} else {
+				e = E{Op: o1, L: leaf(a), R: &E{Op: o2, L: leaf(b), R: leaf(c)}}
+			}
+			r.Check(checkExprN(r, Case{Expr: e}, fmt.Sprintf("P2g%d", gi), sparse))
+		})
+	}
+}
+
+// sitePhases: every operator between every leaf pair, and every operator pair in both association shapes, at
+// every site (the shapes rotate through the sites so that each operator pair meets each site).
+func sitePhases(r *vk.Run) {
+	pool := []string{"7", "2", "0", "n3", "1.5", "0.0", `"a"`, `"b2"`, `""`, "true", "false", "nil"}
+	if r.Quick() {
+		pool = []string{"7", "2", "0", "1.5", `"a"`, `""`, "true", "false"}
+	}
+	np, no, ns := int64(len(pool)), int64(len(binOps)), int64(len(sites))
+	n1 := np * np * no * ns
+	r.Subspace(fmt.Sprintf("sites: %d^2 leaf pairs x 13 operators x %d sites, plus !leaf and the bare leaf", np, ns), n1+2*np*ns, true)
+	r.Parallel(n1, 0, func(i int64) {
+		site := sites[i%ns]
+		i /= ns
+		op := binOps[i%no]
+		i /= no
+		r.Check(checkSite(r, SiteCase{Expr: E{Op: op, L: leaf(pool[i%np]), R: leaf(pool[i/np])}, Site: site}, "S1"))
+	})
+	for _, a := range pool {
+		for _, site := range sites {
+			r.Check(checkSite(r, SiteCase{Expr: E{Not: leaf(a)}, Site: site}, "S1"))
+			r.Check(checkSite(r, SiteCase{Expr: *leaf(a), Site: site}, "S1"))
+		}
+	}
+	trip := [][3]string{{"7", "2", "1"}, {"2", "7", "10"}, {"true", "false", "true"}, {"false", "true", "nil"}, {`"a"`, `"b2"`, `"a"`}, {`"a"`, "2", "1.5"}, {"1.5", "0.5", "2.0"},
+		{"2", "true", `"a"`}, {"0", "7", "0"}, {"nil", "nil", "true"}, {"n3", "2", "n1"}, {`""`, "false", "7"}, {"7", "7", "7"}, {"true", "2", "2"}, {"2", "2", "true"}}
+	nt := int64(len(trip))
+	n2 := no * no * 2 * nt
+	r.Subspace(fmt.Sprintf("sites: 13^2 operator pairs x 2 association shapes x %d operand triples, the site rotating with the triple so that every operator pair and shape stands at each of the %d sites", nt, ns), n2, true)
+	r.Parallel(n2, 0, func(i int64) {
+		shape := i % 2
+		i /= 2
+		o1, o2 := binOps[i%no], binOps[(i/no)%no]
+		k := i / no / no
+		tr := trip[k]
+		var e E
+		if shape == 0 {
+			e = E{Op: o2, L: &E{Op: o1, L: leaf(tr[0]), R: leaf(tr[1])}, R: leaf(tr[2])}
+		} else {
+			e = E{Op: o1, L: leaf(tr[0]), R: &E{Op: o2, L: leaf(tr[1]), R: leaf(tr[2])}}
+		}
+		r.Check(checkSite(r, SiteCase{Expr: e, Site: sites[(k+i%no+(i/no)%no)%ns]}, "S2"))
+	})
+}
+
+// flat draws a typed unparenthesised sequence: products inside sums inside comparisons inside equalities inside
+// && / || chains, each level repeated at random, operands sometimes negated; some ill-typed joints on purpose.
+func (g *gen) flat() ([]*E, []string) {
+	t := g.t
+	var ls []*E
+	var ops []string
+	add := func(op string, l *E) {
+		if len(ls) > 0 {
+			ops = append(ops, op)
+		}
+		ls = append(ls, l)
+	}
+	num := rapid.SampledFrom([][]string{{"7", "2", "1", "10", "n3", "0", "n1"}, {"1.5", "0.5", "2.0", "0.1", "nf", "0.0"}}).Draw(t, "numkind")
+	sum := func(first string) {
+		// prod ((+|-) prod)*
+		for i, n := 0, rapid.IntRange(1, 4).Draw(t, "terms"); i < n; i++ {
+			op := first
+			if i > 0 {
+				op = rapid.SampledFrom([]string{"+", "-"}).Draw(t, "addop")
+			}
+			for j, m := 0, rapid.IntRange(1, 3).Draw(t, "factors"); j < m; j++ {
+				if j > 0 {
+					op = rapid.SampledFrom([]string{"*", "/"}).Draw(t, "mulop")
+				}
+				add(op, leaf(rapid.SampledFrom(num).Draw(t, "num")))
+			}
+		}
+	}
+	strsum := func(first string) {
+		add(first, leaf(rapid.SampledFrom([]string{`"a"`, `"b2"`, `""`, `"A"`}).Draw(t, "str")))
+		for i, n := 0, rapid.IntRange(0, 3).Draw(t, "more"); i < n; i++ {
+			add("+", leaf(rapid.SampledFrom([]string{`"a"`, "2", "1.5", "true", `"^a"`, "7"}).Draw(t, "strop")))
+		}
+	}
+	rel := func(first string) {
+		switch rapid.IntRange(0, 5).Draw(t, "rel") {
+		case 0, 1, 2:
+			sum(first)
+			sum(rapid.SampledFrom([]string{"<", "<=", ">", ">=", "==", "!="}).Draw(t, "cmp"))
+		case 3:
+			strsum(first)
+			strsum(rapid.SampledFrom([]string{"<", "<=", ">", ">=", "==", "!=", "~="}).Draw(t, "scmp"))
+		case 4:
+			add(first, nots(leaf(rapid.SampledFrom([]string{"true", "false", "vt", "vf", "nil", "unk", "2", `""`}).Draw(t, "b")), rapid.IntRange(0, 2).Draw(t, "nots")))
+		default:
+			sum(first) // a number where a truth value is expected: truthy
+		}
+	}
+	eq := func(first string) {
+		rel(first)
+		for i, n := 0, rapid.IntRange(0, 2).Draw(t, "eqs"); i < n; i++ {
+			op := rapid.SampledFrom([]string{"==", "!="}).Draw(t, "eqop")
+			if rapid.IntRange(0, 2).Draw(t, "eqkind") == 0 {
+				rel(op)
+			} else {
+				add(op, nots(leaf(rapid.SampledFrom([]string{"true", "false", "vt", "vf"}).Draw(t, "b2")), rapid.IntRange(0, 1).Draw(t, "nots2")))
+			}
+		}
+	}
+	eq("")
+	for i, n := 0, rapid.IntRange(0, 4).Draw(t, "ands"); i < n; i++ {
+		eq(rapid.SampledFrom([]string{"&&", "||"}).Draw(t, "andor"))
+	}
+	if rapid.IntRange(0, 9).Draw(t, "illtyped") == 0 && len(ops) > 0 {
+		ops[rapid.IntRange(0, len(ops)-1).Draw(t, "at")] = rapid.SampledFrom(binOps).Draw(t, "anyop")
+	}
+	return ls, ops
 }
 
 // seqGroups: operand pairs of one kind each; a sequence walks through several groups
@@ -624,7 +1559,9 @@ func seqPhases(r *vk.Run) {
 	// followed by every error pair (an operator that worked for the operands before still fails for these).
 	var n int64
 	reps := [][2]string{{"2", "7"}, {"7", "2"}, {"n3", "0"}, {"1.5", "2.0"}, {"nf", "1.5"}, {`"a"`, `"b2"`}, {`"b2"`, `"a"`}, {`"a"`, `"a"`}, {`""`, `"^a"`},
-		{"true", "false"}, {"false", "false"}, {"nil", "nil"}, {"2", "1.5"}, {"1.5", "2"}, {`"a"`, "2"}, {`"a"`, "true"}, {"7", "0"}, {"2", "nil"}, {"true", "nil"}, {"2", `"a"`}, {"true", "2"}}
+		{"true", "false"}, {"false", "false"}, {"nil", "nil"}, {"2", "1.5"}, {"1.5", "2"}, {`"a"`, "2"}, {`"a"`, "true"}, {"7", "0"}, {"2", "nil"}, {"true", "nil"}, {"2", `"a"`}, {"true", "2"},
+		// operand pairs of different kinds that PRINT alike: 2 2 / 2.0 2.0 / "2" "2", true true / "true" "true"
+		{"2", "2"}, {"2.0", "2.0"}, {`"2"`, `"2"`}, {"true", "true"}, {`"true"`, `"true"`}, {"10", "7"}, {"0.1", "0.2"}}
 	for _, op := range binOps {
 		var ok, bad [][2]string
 		for _, row := range reps {
@@ -637,10 +1574,10 @@ func seqPhases(r *vk.Run) {
 				ok = append(ok, row)
 			}
 		}
-		for _, mode := range []string{"fn", "loop"} {
+		for _, mode := range seqModes {
 			usable := func(rows ...[2]string) bool {
 				for _, row := range rows {
-					if mode == "loop" && (row[0] == "nil" || row[1] == "nil") {
+					if mode != "fn" && (row[0] == "nil" || row[1] == "nil") {
 						return false // a nil element of a data row is fine, but keep the two modes' tables identical in meaning: nil enters through arguments only
 					}
 				}
@@ -648,7 +1585,7 @@ func seqPhases(r *vk.Run) {
 			}
 			for i := range ok {
 				for j := range ok {
-					if i != j && usable(ok[i], ok[j]) {
+					if i != j && usable(ok[i], ok[j]) && (mode == "fn" || mode == "loop" || i < j || r.Thorough()) {
 						if r.Mine(n) {
 							r.Check(checkSeq(r, SeqCase{Expr: E{Op: op, L: leaf("p"), R: leaf("q")}, Rows: [][2]string{ok[i], ok[j], ok[i]}, Mode: mode}, "S1"))
 						}
@@ -666,7 +1603,7 @@ func seqPhases(r *vk.Run) {
 			}
 		}
 	}
-	r.Subspace("sequences: p OP q for 13 operators x {ordered pairs (A, B) of operand pairs with a value, evaluated A, B, A; value pair then error pair} over 21 operand pairs x {function, loop}", n, true)
+	r.Subspace("sequences: p OP q for 13 operators x {ordered pairs (A, B) of operand pairs with a value, evaluated A, B, A; value pair then error pair} over 28 operand pairs x {function, loop, text written once per pair, one parsed template executed per pair (quick: these two for A before B only)}", n, true)
 	r.Rapid("sequences", r.Pick(4000, 60000), func(t *rapid.T) *vk.Fail {
 		g := &gen{t: t}
 		var shape func(d int) *E
@@ -679,7 +1616,7 @@ func seqPhases(r *vk.Run) {
 			}
 			return g.wrap(&E{Op: rapid.SampledFrom(binOps).Draw(t, "op"), L: shape(d - 1), R: shape(d - 1)})
 		}
-		c := SeqCase{Expr: *shape(rapid.IntRange(1, 3).Draw(t, "depth")), Mode: rapid.SampledFrom([]string{"fn", "loop"}).Draw(t, "mode")}
+		c := SeqCase{Expr: *shape(rapid.IntRange(1, 3).Draw(t, "depth")), Mode: rapid.SampledFrom(seqModes).Draw(t, "mode")}
 		homog := rapid.IntRange(0, 3).Draw(t, "homogeneous") > 0
 		for i, n := 0, rapid.IntRange(2, 4).Draw(t, "rows"); i < n; i++ {
 			pool := allLeaves
